@@ -4,7 +4,7 @@ from vlib import *
 
 PROP = 'C05'
 IMPORTS = 'Model.RegAlloc Gen.Regs Corr.C05'
-KNOWN_CLASS = 'c05-diffswitch-explicit-regs'
+KNOWN_CLASS = 'c05-diffswitch-explicit-regs'   # defect #3, fixed in /repo 4000fd0 (known_findings.d/C05.json: status fixed)
 
 def run_harness(v, args, seed, timeout=2400):
     rc, out = sh([harness_bin('c05')] + [str(a) for a in args], timeout=timeout, env={'VERIF_SEED': str(seed)})
@@ -84,17 +84,15 @@ def main(argv):
         what, where, tag, text = f[0], f[1], f[2], f[3]
         failing_tags.add(tag)
         kind = what.split(':')[0]
-        if kind == 'mentioned-in-switch-only' and not deep:
-            cls = KNOWN_CLASS          # defect #3, present in this source (gen/regs.py: the scan does not enter DiffSwitch)
-        else:
-            cls = 'c05-oracle:' + kind
+        # a register named only inside a difficulty switch and handed out anyway is defect #3 come back
+        cls = KNOWN_CLASS if kind == 'mentioned-in-switch-only' else 'c05-oracle:' + kind
         seen.setdefault(cls, [])
         if len(seen[cls]) < 3:
             seen[cls].append(tag)
             v.violation('implementation-level oracle: ' + what + ' [' + where + ']',
                         {'class': cls, 'tag': tag, 'source_text': src_of(text), 'detail': what, 'where': where})
     v.obligation('oracle: no compiler-chosen register is named by the source / a parameter register / outside its pool / shared by two live locals (%d generated files)' % (stats.get('impl_ok', 0) + stats.get('impl_err_too_complex', 0)),
-                 not [c for c in seen if c != KNOWN_CLASS],
+                 not seen,
                  '; '.join('%s x%d' % (c, len(t)) for c, t in seen.items()))
     # programs the compiler rejected for another reason would silently shrink the coverage
     others = [u for u in unexpected if 'panicked' not in u[1]]
@@ -151,7 +149,7 @@ def main(argv):
                       'the statement stream is private to truth: the harness predicts it from its own program AST (a re-statement of the stackless lowerer for the generated statement shapes) and the prediction is validated on every case by comparing every emitted instruction',
                       'built-in (core) mapfiles cannot be loaded through the public API: the generated sources load an equivalent user mapfile (signatures + intrinsics of the opcodes used); pools, parameter registers and scratch-forbidding opcodes are the real hooks'],
         assumptions=['register ids are exactly representable in f32 (|id| < 2^24; checked for the generated pools)',
-                     'C05_no_collision_current holds under the guard "get_explicitly_used_regs enters difficulty switches (read off the source) or the code has no register inside a switch"; without the guard it is refuted (C05_f03_collides) while defect #3 is present',
+                     'C05_explicit_regs_complete / C05_no_collision are stated for the scan gen/regs.py reads off the source (gen_explicit_deep); they only check while get_explicitly_used_regs enters difficulty switches (defect #3 was fixed in 4000fd0), a regression breaks the proof and the oracle supplies the failing input',
                      'source_mentions_survive (every register written in the source occurs in the stream) is checked per case by the oracle (source mentions vs compiler-chosen registers), not proved: it belongs to the lowering model of C02'])
 
 if __name__ == '__main__':
